@@ -192,6 +192,12 @@ fn deco_color(kind: u8, text: bool, custom: C) -> Option<C> {
 }
 
 fn draw_and_compare(font: &MonoFont, s: &str, text: bool, bg: bool, ul: u8, st: u8, obs: &mut Obs) {
+    draw_and_compare_x(font, s, text, bg, ul, st, false, obs)
+}
+
+/// `same_bg`: the background colour is the text colour (only meaningful with text and bg set)
+#[allow(clippy::too_many_arguments)]
+fn draw_and_compare_x(font: &MonoFont, s: &str, text: bool, bg: bool, ul: u8, st: u8, same_bg: bool, obs: &mut Obs) {
     let pos = (-3, 2);
     let style = char_style::<C>(font, text, bg, ul, st);
     // the style must not depend on the order in which the builder was configured
@@ -204,6 +210,11 @@ fn draw_and_compare(font: &MonoFont, s: &str, text: bool, bg: bool, ul: u8, st: 
     let rebuilt = char_style_rebuilt::<C>(font, text, bg, ul, st);
     if derived != style || rebuilt != style {
         obs.fail("style-independent-of-builder-order", format!("configured from scratch {:?}; derived from a loaded style and reset {:?}; MonoTextStyleBuilder::from(&style).build() {:?}", (style.text_color, style.background_color, style.underline_color, style.strikethrough_color), (derived.text_color, derived.background_color, derived.underline_color, derived.strikethrough_color), (rebuilt.text_color, rebuilt.background_color, rebuilt.underline_color, rebuilt.strikethrough_color)));
+    }
+    let mut other = other;
+    if same_bg {
+        other.background_color = Some(C::TEXT);
+        obs.class("background-colour-equals-text-colour");
     }
     let t = Text::with_baseline(s, Point::new(pos.0, pos.1), other, Baseline::Top);
     let mut d = RecD::<C>::new();
@@ -225,6 +236,15 @@ fn draw_and_compare(font: &MonoFont, s: &str, text: bool, bg: bool, ul: u8, st: 
         let lp = (pos.0, pos.1 + li as i32 * chh);
         exp_tw.extend(expected_line(font, line, lp, text, bg, ulc, stc, text_w));
         exp_adv.extend(expected_line(font, line, lp, text, bg, ulc, stc, adv_w));
+    }
+    if same_bg {
+        for m in [&mut exp_tw, &mut exp_adv] {
+            for v in m.values_mut() {
+                if *v == C::BG {
+                    *v = C::TEXT;
+                }
+            }
+        }
     }
     obs.outcome(&d.map);
     obs.nontrivial_if(!exp_tw.is_empty());
@@ -369,6 +389,14 @@ fn check_custom(c: &CustomCase, obs: &mut Obs) {
     obs.class_if(c.glyphs_per_row == 1, "one-glyph-per-row");
     obs.class_if(c.mapping == 1, "closure-mapping");
     draw_and_compare(&font, &c.text, text, bg, ul, st, obs);
+    // the glyph pixels / colours reach the target whichever way it consumes the iterators it is handed
+    if c.text.len() <= 8 {
+        let t = Text::with_baseline(&c.text, Point::new(-3, 2), char_style::<C>(&font, text, bg, ul, st), Baseline::Top);
+        egverif::proto::consumption_protocol("text in a synthetic font", &t, obs);
+    }
+    if text && bg {
+        draw_and_compare_x(&font, &c.text, text, bg, ul, st, true, obs);
+    }
 }
 
 // ---- domains -----------------------------------------------------------------------------------
@@ -535,7 +563,7 @@ fn main() {
         assumptions: &["mapping tables are checked for internal consistency and against the atlas geometry, not against the ISO 8859 standards", "with character spacing the decorations may span the text width or the advance width (an existing test pins the latter for transparent text)"],
         parts: |_| vec![PartSpec::new("mapping", "verif"), PartSpec::new("draw-a", "verif"), PartSpec::new("draw-b", "verif")],
         run_part,
-        required_classes: |_| vec!["decoration-of-zero-height", "mapping-per-font", "mapping-full-bmp-scan", "mapped-character", "unmapped-character", "non-bmp-character", "control-character", "decorated", "background-only", "three-characters", "glyphs-through-a-target-window", "line-starting-with-carriage-return", "custom-font", "character-spacing", "spacing-with-background", "one-glyph-per-row", "closure-mapping"],
+        required_classes: |_| vec!["decoration-of-zero-height", "background-colour-equals-text-colour", "mapping-per-font", "mapping-full-bmp-scan", "mapped-character", "unmapped-character", "non-bmp-character", "control-character", "decorated", "background-only", "three-characters", "glyphs-through-a-target-window", "line-starting-with-carriage-return", "custom-font", "character-spacing", "spacing-with-background", "one-glyph-per-row", "closure-mapping"],
         crash_is_verdict: false,
     })
 }
